@@ -433,6 +433,8 @@ HARNESSES = [
     H('standard_n3_d2', h_standard, dict(n=3, d=2, whiten=False, warton=False), bounds='3 x 2'),
     H('standard_n3_d2_whitened', h_standard, dict(n=3, d=2, whiten=True, warton=False), bounds='3 x 2, whitening matrix'),
     H('standard_n3_d2_warton', h_standard, dict(n=3, d=2, whiten=False, warton=True), bounds='3 x 2, Warton shrinkage, penalty in [0,1]'),
+    H('standard_n3_d2_whitened_warton', h_standard, dict(n=3, d=2, whiten=True, warton=True),
+      bounds='3 x 2, whitening + Warton shrinkage together (the covariance must be shrunk in whitened space)', path_timeout=600),
     H('standard_n4_d2_whitened_warton', h_standard, dict(n=4, d=2, whiten=True, warton=True), bounds='4 x 2, whitening + Warton',
       tiers=('thorough',), path_timeout=600),
     H('ghurye_olkin_n5_d1', h_ghurye_olkin, dict(n=5, d=1), bounds='5 x 1'),
